@@ -104,3 +104,13 @@ CLAIMS["C15"] = ("proof",
     "(same circuits at several hbar on three backends) is reported separately.",
     _TB + "thewalrus-computed Fock probabilities and the simulators' internal hbar=2 constants are not under contract.",
     "deductive verification: VCs from the real source + z3/cvc5 (NRA with sqrt abstraction)", "DESIGN.md 5/C15")
+CLAIMS["C06"] = ("other",
+    "Proved for all values: MeasureHomodyne unit conversion (select hbar-free to the backend, outcome x sqrt(hbar/2)); at fixed "
+    "shapes (<= 3 modes, <= 2 shots, four measurement orders; reported as shape-bounded): Measurement.apply stores column j of the "
+    "backend outcome in reg[j].val and nothing when shots is None, _combine_and_sort_samples returns rows = shots, columns = "
+    "latest outcome per measured mode in ascending mode order. BOUNDED stand-in for the physics: the arguments handed to "
+    "numpy.random.multivariate_normal / choice are the Born distribution of the pre-measurement state; conditional states are "
+    "the Schur complement for the RETURNED outcome; vacuum reset; every ordered subset of measured modes with every outcome "
+    "forced on the Fock backend; post-selected conditional states agree across gaussian/bosonic/fock. F21 found and repaired.",
+    "bounded parts not counted as proved; the distributional claim (the draw IS Born distributed) is a statement about the RNG",
+    "deductive VCs for unit conversion/storage/collation + bounded stand-in recording the RNG arguments", "DESIGN.md 5/C06")
